@@ -107,7 +107,7 @@ CHECKS["C08"] = dict(
     design="§4 C08")
 CHECKS["C09"] = dict(
     technique="Lifecycle.tla safety (PumpAlive) and liveness (Quiet ~> CONNECTED under strong fairness, thorough tier) by TLC + TLC trace validation of real fault/reset scenarios + measured recovery/out-of-service times judged by TLC against bounds from the live configuration (C09_Judge)",
-    text="Same specification and runs as C08 with the emphasis on recovery: after the script's last fault (blackouts from 3 s to 400 s at discovery/handshake/steady state, lossy and RF-error phases, resets at every enumerated point of a connection attempt, seeded mixtures) the run continues for a bound derived from the configured timeouts and must be CONNECTED with the pump task alive and a client block equal to the simulator's; a long blackout in steady state must take the manager out of CONNECTED within its bound. The logs are validated against Lifecycle_Trace; the measured times are judged by TLC. Faults are placed relative to a pilot run of the real code (a blackout beginning just before each discovery / handshake datagram); set-spa-info calls are injected like resets, also on managers started without an identifier.",
+    text="Same specification and runs as C08 with the emphasis on recovery: after the script's last fault (blackouts from 3 s to 400 s at discovery/handshake/steady state, lossy and RF-error phases, resets at every enumerated point of a connection attempt, seeded mixtures) the run continues for a bound derived from the configured timeouts and must be CONNECTED with the pump task alive and a client block equal to the simulator's; a long blackout in steady state must take the manager out of CONNECTED within its bound. The logs are validated against Lifecycle_Trace; the measured times are judged by TLC. Faults are placed relative to a pilot run of the real code (a blackout beginning just before each discovery / handshake datagram); set-spa-info calls are injected like resets, also on managers started without an identifier. Liveness (Quiet ~> CONNECTED or a listed escape) is model-checked in both tiers on LifecycleLive.tla, which drives the same transition relation with a round-robin scheduler so that one weak-fairness condition suffices; without the NOT_FOUND excuse the property is refuted (D9 at design level).",
     note="Trusted as C08. Known findings: D9 (ERROR_SPA_NOT_FOUND is terminal) and D10; D8 (pump dies on reset while connecting) and D18 (stranded in SPA_READY) were fixed. Liveness under fairness is checked on the model only (thorough tier, outer timeout).",
     design="§4 C09")
 
